@@ -40,15 +40,32 @@ func vK07f() {
 
 	for p := 0; p < nPieces; p++ {
 		addMapping() // right after the previous placeholder / at the start
-		data := hBytes(hLen(0, maxData))
-		vAssume(hWholeChars(data))
-		before = append(before, data...)
-		after = append(after, data...)
-		var off LineColumnOffset
-		off.AdvanceBytes(data)
-		shift.Before.Add(off)
-		shift.After.Add(off)
-		addMapping() // right before the next placeholder / at the end
+		addData := func(data []byte) {
+			before = append(before, data...)
+			after = append(after, data...)
+			var off LineColumnOffset
+			off.AdvanceBytes(data)
+			shift.Before.Add(off)
+			shift.After.Add(off)
+		}
+		if vParam("LINES", 0) != 0 {
+			// structured family for multi-line chunks: after each placeholder
+			// one byte, an optional mapped token, an optional line break and
+			// an optional mapped token at the start of the next line
+			if p > 0 {
+				addData([]byte{'x'})
+				addMapping()
+				if vBool() {
+					addData([]byte{'\n'})
+					addMapping()
+				}
+			}
+		} else {
+			data := hBytes(hLen(0, maxData))
+			vAssume(hWholeChars(data))
+			addData(data)
+			addMapping() // right before the next placeholder / at the end
+		}
 		if p+1 < nPieces {
 			path := []string{"p", "pqrst", "éx", "pq"}[vChoose(vParam("PATHS", 2))]
 			l, c, _ := hLineCol(before, len(before))
